@@ -478,11 +478,13 @@ func (m *machineManager) Do(ctx context.Context) {
 		} else {
 			probationTimer.Set(probation[0].lastFailure.Add(ProbationTimeout))
 		}
+		vtrace("MgrSelect", req != nil, need, pending, len(machQ), len(probation), len(m.schedQ))
 		select {
 		case machc <- mach:
 			mach.taskProcs += req.procs
 			heap.Fix(&machQ, mach.index)
 			heap.Remove(&m.schedQ, req.index)
+			vtrace("MgrGrant", mach, req, mach.taskProcs, mach.maxTaskProcs, int(mach.health), need)
 		case <-probationTimer.C():
 			mach := probation[0]
 			mach.health = machineOk
@@ -490,6 +492,7 @@ func (m *machineManager) Do(ctx context.Context) {
 			heap.Remove(&probation, 0)
 			heap.Push(&machQ, mach)
 			probationTimer.Clear()
+			vtrace("MgrProbationExpire", mach, int(mach.health))
 		case done := <-donec:
 			need -= done.procs
 			mach := done.sliceMachine
@@ -526,9 +529,11 @@ func (m *machineManager) Do(ctx context.Context) {
 			default:
 				panic("invalid machine state")
 			}
+			vtrace("MgrDone", mach, done.procs, done.Err, mach.taskProcs, int(mach.health), need)
 		case s := <-m.schedc:
 			heap.Push(&m.schedQ, s)
 			need += s.procs
+			vtrace("MgrOffer", s, need)
 		case s := <-m.unschedc:
 			if s.index < 0 {
 				// The scheduling request is no longer queued, which means
@@ -537,6 +542,7 @@ func (m *machineManager) Do(ctx context.Context) {
 			}
 			need -= s.procs
 			heap.Remove(&m.schedQ, s.index)
+			vtrace("MgrCancel", s, need)
 		case result := <-startc:
 			pending -= m.machprocs * (len(result.machines) + result.nFailures)
 			for _, mach := range result.machines {
@@ -555,6 +561,7 @@ func (m *machineManager) Do(ctx context.Context) {
 					log.Printf("warning; failed to start last %d machines; check for systematic problem preventing machine bootup", consecutiveStartFailures)
 				}
 			}
+			vtrace("MgrStarted", result.machines, result.nFailures, pending)
 		case mach := <-stoppedc:
 			numStopped++
 			// Remove the machine from management. We let the sliceMachine
@@ -568,6 +575,7 @@ func (m *machineManager) Do(ctx context.Context) {
 			}
 			mach.health = machineLost
 			mach.Status.Done()
+			vtrace("MgrStopped", mach, len(machQ), len(probation))
 		case <-logTicker.C:
 			// pending is in procs, so we convert it to machines.
 			machPending := pending / m.machprocs
@@ -592,6 +600,7 @@ func (m *machineManager) Do(ctx context.Context) {
 				needMachines = min((needProcs+m.machprocs-1)/m.machprocs, maxStartMachines)
 			)
 			pending += needMachines * m.machprocs
+			vtrace("MgrStart", needMachines, pending, have, need, m.maxp, m.machprocs)
 			log.Printf("slicemachine: %d machines (%d procs); %d machines pending (%d procs)",
 				have/m.machprocs, have, pending/m.machprocs, pending)
 			go func() {
